@@ -16,7 +16,7 @@ RULE = ("generated 1-3-file programs (plus included files) with labels and const
         "only in letter case from names in other files, x output selectors (-o x.bin, -o x.raw, -o x (no extension), make_bin, make_raw, make_wav, "
         "--implicit-bin, -o together with make_*); distinct = distinct listings with >= 3 symbols in >= 2 files")
 ASSUMPTIONS = ["when both -o and a make_* directive are present the statement does not say which output is 'first': either location is accepted, exactly one listing must exist",
-               "the value field is accepted as -?[0-7]+ (zero padded) equal to the value; included files are included once",
+               "the value field is accepted as -?[0-7]+ (zero padded) equal to the value; a file that is compiled k times (included from k places without '.once') defines its symbols k times: 'exactly once' is read per compilation, all in the file's one section",
                "'named after it with a .lst suffix' is read as: the output's own format suffix (.bin of a bin file, .raw of a raw file) is replaced by .lst, any other name gets .lst appended (a tape image x.wav may give x.wav.lst or x.lst)"]
 DECIDING_COUNTERS = ["cli_runs", "listings_parsed", "symbols_checked"]
 MIN_DISTINCT = 30
@@ -80,6 +80,14 @@ def gen_prog(rnd):
             body = [apm.simple(".even"), apm.label(f"pl{j}"), apm.data(".word", apm.num(j)), apm.assign(f"pk{j}", apm.num(rnd.choice(vals)))]
             prog.aux[nm] = apm.SrcFile(nm, body)
             host_file.stmts.append(apm.include(nm))
+    if rnd.random() < 0.25:
+        # an unguarded file included from two places: every inclusion is a compilation of its own, with its own symbols at its own place
+        body = [apm.simple(".even"), apm.label("twice7a"), apm.data(".word", apm.num(0o52525)), apm.label("twice7b"), apm.data(".byte", apm.num(1), apm.num(2)),
+                apm.assign("twice7k", apm.num(rnd.choice(vals)))]
+        prog.aux["twice7.mac"] = apm.SrcFile("twice7.mac", body)
+        for _ in range(2):
+            hf = rnd.choice(prog.files)
+            hf.stmts += [apm.simple(".even"), apm.include("twice7.mac"), apm.simple(".even")]
     if rnd.random() < 0.25:
         # a '.once'-guarded file included from two places: it contributes (and is listed) once
         body = [apm.simple(".once"), apm.simple(".even"), apm.label("oncelab7"), apm.data(".word", apm.num(0o125252)), apm.assign("oncek7", apm.num(rnd.choice(vals)))]
@@ -255,7 +263,7 @@ def run_case(case, cnt=None, root=None):
             listing_text = fh.read()
         cnt["listings_parsed"] += 1
         sections = parse_listing(listing_text)
-        table = ref.symbol_table()          # {(file name, symbol): value}
+        table = ref.symbol_table_multi()          # {(file name, symbol): values, one per compilation of that file}
         by_file = {}
         for (fn, name), v in table.items():
             by_file.setdefault(fn, {})[name] = v
@@ -273,8 +281,9 @@ def run_case(case, cnt=None, root=None):
             got_names = [n for _, n in rows]
             for n in want:
                 c = sum(1 for g in got_names if g == n)
-                if c != 1:
-                    viol(f"{label}: symbol '{n}' of {base} is listed {c} times (section rows {rows[:6]})")
+                if c != len(want[n]):
+                    viol(f"{label}: symbol '{n}' of {base} is listed {c} times, the file is compiled {len(want[n])} time(s) (section rows {rows[:6]})")
+            left = {n: list(vs) for n, vs in want.items()}
             for vt, n in rows:
                 cnt["symbols_checked"] += 1
                 if n not in want:
@@ -287,8 +296,10 @@ def run_case(case, cnt=None, root=None):
                     continue
                 if v > 0o177777:
                     cnt["listed_values_beyond_64k"] = cnt.get("listed_values_beyond_64k", 0) + 1
-                if v != want[n]:
-                    viol(f"{label}: '{n}' of {base} listed as {vt} (= {v}), its value is {want[n]} ({want[n]:o} octal)")
+                if v in left[n]:
+                    left[n].remove(v)
+                else:
+                    viol(f"{label}: '{n}' of {base} listed as {vt} (= {v}), its value is {' / '.join(f'{x} ({x:o} octal)' for x in want[n])}")
                 if not re.match(r"^-?[0-7]{6,}$", vt):
                     viol(f"{label}: value field {vt!r} of '{n}' is not a zero-padded octal number")
             keys = []
